@@ -158,7 +158,11 @@ func (fr *frame) callStatic(fn *ssa.Function, args []Val, argTypes []types.Type,
 		}
 	}
 	if ct != nil && (ct.Trusted || !hasBody || vc.contractApplies(ct) || ct.Opaque) {
-		return fr.applyContract(ct, key, fn.Signature, args, argTypes, st, alive, pos, vc.eng.pkgOfFn(fn))
+		rv, al := fr.applyContract(ct, key, fn.Signature, args, argTypes, st, alive, pos, vc.eng.pkgOfFn(fn))
+		if !ct.Trusted && !vc.eng.mayReturnSentinel(fn) {
+			vc.assumeNotSentinel(rv, fn.Signature, al)
+		}
+		return rv, al
 	}
 	if hasBody {
 		if fr.depth >= vc.maxDepth {
@@ -179,7 +183,11 @@ func (fr *frame) callStatic(fn *ssa.Function, args []Val, argTypes []types.Type,
 	} else {
 		vc.havocked[name] = true
 	}
-	return fr.havocCall(fn.Signature, args, argTypes, st, alive, name), alive
+	hv := fr.havocCall(fn.Signature, args, argTypes, st, alive, name)
+	if !vc.eng.mayReturnSentinel(fn) {
+		vc.assumeNotSentinel(hv, fn.Signature, alive)
+	}
+	return hv, alive
 }
 
 func tupleOf(res []Val, n int) Val {
@@ -209,7 +217,7 @@ func (vc *VC) contractApplies(ct *Contract) bool {
 		return true
 	}
 	for _, cl := range ct.Requires {
-		if cl.inSlice(vc.slice) {
+		if cl.inSlice(vc.slice) && !cl.isInv() {
 			return true
 		}
 	}
